@@ -69,7 +69,7 @@ CHECKS.update({
          "the model is small and written from the property text", "6 C19"),
  "C20": ("runner + verif_gen", "three separate generator processes compared token-for-token on every corpus grammar; option variants of recursive grammars compiled side by side and compared on proptest-generated inputs",
          "determinism of the emitted token stream across processes; every variant compiles; verdict, cursor and token forest of each of 7 non-default option sets equal the default variant's (which C01/C02 tie to pest).",
-         "K5 (does not compile) and K6 (e+ under pest_optimizer=false) are listed findings with exact models", "6 C20"),
+         "K5 (does not compile) and K6 (e+ under pest_optimizer=false) are listed findings with exact models; K7 (Unicode property INHERITED does not compile) is C11's", "6 C20"),
 })
 NOT_YET = {}
 
@@ -112,7 +112,7 @@ def main():
         ],
         "checks": checks,
         "not_applicable": na,
-        "notes": "Technique family: property-based testing and fuzzing. See DESIGN.md. Known findings: known_findings.json.",
+        "notes": "Technique family: property-based testing and fuzzing (proptest, bounded-exhaustive enumeration, libFuzzer in the thorough tier). See DESIGN.md (sections 12-13: as built, findings, seeded changes). Known findings: known_findings.json (open: K1 K2 K3 K4b K5 K6 K7; fixed in /repo by fix: commits: F1 K4a K4c). Seeded changes with demonstrations: seeded/. Saved reproductions: replays/.",
     }
     json.dump(m, open(os.path.join(ROOT, "MANIFEST.json"), "w"), indent=1)
     print("wrote MANIFEST.json with", len(checks), "checks,", len(na), "not_applicable")
